@@ -55,6 +55,16 @@ def suiteMerge (kvs : List (String × String)) (lines : List (String × String))
   | some td =>
     lines.map fun (line, _) =>
       let toKVs (s : String) := (s.splitOn ";").filterMap fun kv => match kv.splitOn "=" with | [k, v] => some (k, v) | _ => none
+      if line.startsWith "b " then
+        -- shared backing arrays: r1 after r1.Merge(o1); r1.Merge(o2) — whatever another receiver did with o1 meanwhile
+        match ((line.drop 2).toString).splitOn " | " with
+        | [r1, o1, o2, _, _] =>
+          let v (sg : String) := buildVal types 8 td.fields "" (toKVs sg)
+          let m := evalStmts types 8 td.fields td.prog (evalStmts types 8 td.fields td.prog (v r1) (v o1)) (v o2)
+          let sp := specStruct types 8 td.fields (specStruct types 8 td.fields (v r1) (v o1)) (v o2)
+          ";".intercalate (encodeVal "" m) ++ "\t" ++ ";".intercalate (encodeVal "" sp)
+        | _ => "bad-op\t-"
+      else
       if line.startsWith "a " then
         -- aliasing check: after recv.Merge(o1); recv.Merge(o2) the value o1 must read exactly as it was given
         match ((line.drop 2).toString).splitOn " | " with
